@@ -85,7 +85,8 @@ theorem all_or_nothing_partial (route : List (FHop × Mid)) (a : Int)
       obtain ⟨x, hx, rfl⟩ := List.mem_map.mp hh
       have := hb x hx
       cases hr : x.1.recv <;> cases hf : x.1.fwd <;> simp_all
-    simp [this]
+    rw [this]
+    rfl
 
 /-- non-vacuity: A→B→C with a token native to A (B mints then escrows) and with a voucher returning to
     its origin C (B unescrows then burns): both restored after a failed forward. -/
